@@ -19,7 +19,7 @@ import (
 )
 
 func init() {
-	pbt.Describe("set: start files heavy in what the setters must cope with (the same path required 2-3 times across lines and blocks, blocks with and without their own comments, unique marker comments on every line, blank-line separators, '// indirect' and '// indirect; text', exclude/retract blocks in random order with go <1.21 / >=1.21 / absent / non-semver go versions) x one of SetRequire, SetRequireSeparateIndirect (go.mod) or SetUse (go.work) with a requested list of distinct paths that partly overlaps the file, with changed versions and flipped indirect flags; Cleanup before and after. Oracle: re-parsed require/use multiset == requested list exactly, in-memory list agrees; every block of the output is sorted under the documented comparator re-implemented here (token-lexical; exclude by path then semantic version from go 1.21; retract descending by low then high); every kept line still has its leading marker and its end-of-line comment is exactly its marker with or without the indirect prefix as requested. separate: files whose only requirement statement is one line or one block with no comments other than indirect markers: after SetRequireSeparateIndirect no require statement mixes direct and indirect requirements. Non-trivial: the start file had a duplicate path or >=2 require/use statements and the request both drops and adds something. Distinct by JSON rendering. history: the setter is the last of 2-5 operations of one session (setters, AddRequire, AddNewRequire, DropRequire, AddExclude, AddReplace, DropReplace, Cleanup, SortBlocks; go.work: SetUse, AddUse, AddNewUse, DropUse), each generated against what the earlier ones left; same oracle, the comment clause skips lines an earlier operation rewrote. A quarter of the start lines carry no leading comment and a fifth no end-of-line comment; the comments a kept line must carry are taken from the start file.",
+	pbt.Describe("set: start files heavy in what the setters must cope with (the same path required 2-3 times across lines and blocks, blocks with and without their own comments, unique marker comments on every line, blank-line separators, '// indirect' and '// indirect; text', exclude/retract blocks in random order with go <1.21 / >=1.21 / absent / non-semver go versions) x one of SetRequire, SetRequireSeparateIndirect (go.mod) or SetUse (go.work) with a requested list of distinct paths that partly overlaps the file, with changed versions and flipped indirect flags; Cleanup before and after. Oracle: re-parsed require/use multiset == requested list exactly, in-memory list agrees; every block of the output is sorted under the documented comparator re-implemented here (token-lexical; exclude by path then semantic version from go 1.21; retract descending by low then high); every kept line still has its leading marker and its end-of-line comment is exactly its marker with or without the indirect prefix as requested. separate: files whose only requirement statement is one line or one block with no comments other than indirect markers: after SetRequireSeparateIndirect no require statement mixes direct and indirect requirements. Non-trivial: the start file had a duplicate path or >=2 require/use statements and the request both drops and adds something. Distinct by JSON rendering. history: the setter is the last of 2-5 operations of one session (setters, AddRequire, AddNewRequire, DropRequire, AddExclude, AddReplace, DropReplace, Cleanup, SortBlocks; go.work: SetUse, AddUse, AddNewUse, DropUse), each generated against what the earlier ones left; same oracle, the comment clause skips lines an earlier operation rewrote. A quarter of the start lines carry no leading comment and a fifth no end-of-line comment; the comments a kept line must carry are taken from the start file. Half of the set and separate cases apply the setter to the file as parsed (no Cleanup first: in a freshly parsed file nothing is pending, and Cleanup would already remove empty blocks and unfold one-line blocks); the one require statement of a separate case may be a block with nothing in it.",
 		"the documented comparators are re-implemented with the independent semver model", "Cleanup is called before and after the setter (the property's hedge)")
 }
 
@@ -34,6 +34,11 @@ func genSet(t *rapid.T) modedit.Case {
 		names = []string{"SetUse"}
 	}
 	c := modedit.GenCase(t, work, 1, names)
+	if len(c.Ops) == 2 && c.Ops[0].Name == "Cleanup" && rapid.Bool().Draw(t, "nopreclean") {
+		// the setter applied to the file as parsed: nothing is pending in a freshly parsed file, and Cleanup first would
+		// already remove empty blocks and unfold one-line blocks
+		c.Ops = c.Ops[1:]
+	}
 	return c
 }
 
@@ -253,8 +258,9 @@ func check(c modedit.Case) pbt.Result {
 // ---- separate-indirect on a single uncommented requirement statement
 
 type sepCase struct {
-	Start modgen.File
-	Reqs  []modedit.Req
+	Start      modgen.File
+	Reqs       []modedit.Req
+	NoPreClean bool `json:",omitempty"` // the setter is applied to the file as parsed (Cleanup first would already remove an empty block and unfold a one-line block)
 }
 
 func genSep(t *rapid.T) sepCase {
@@ -264,10 +270,10 @@ func genSep(t *rapid.T) sepCase {
 	have := false
 	for _, s := range f.Stmts {
 		if s.Verb == "require" {
-			if have || len(s.Lines) == 0 {
+			if have {
 				continue
 			}
-			have = true
+			have = true // (possibly a block with nothing in it: the degenerate "one uncommented block")
 			for i := range s.Lines {
 				s.Lines[i].Blank = false // blank lines are fine, but keep the statement "flat"
 			}
@@ -276,7 +282,7 @@ func genSep(t *rapid.T) sepCase {
 	}
 	f.Stmts = keep
 	f.After = nil
-	c := sepCase{Start: f}
+	c := sepCase{Start: f, NoPreClean: rapid.Bool().Draw(t, "nopreclean")}
 	seen := map[string]bool{}
 	for _, d := range f.All() {
 		if d.Verb == "require" && !seen[d.Args[0]] && rapid.IntRange(0, 3).Draw(t, "keep") != 0 {
@@ -331,6 +337,10 @@ func checkSep(c sepCase) pbt.Result {
 		seenP[q.Path] = true
 	}
 	mc := modedit.Case{Start: c.Start, Ops: []modedit.Op{{Name: "Cleanup"}, {Name: "SetRequireSeparateIndirect", Reqs: c.Reqs}}}
+	if c.NoPreClean {
+		mc.Ops = mc.Ops[1:]
+		r.Classes = append(r.Classes, "setter applied to the file as parsed")
+	}
 	out, fail := modedit.Run(mc)
 	if fail != nil {
 		r.Fail = fail
